@@ -29,10 +29,11 @@ PROP = "C18"
 LEVEL = "proof"
 LEVEL_TEXT = (
     "Lean 4 theorems, for every network, every tree and every step: the annealing evaluator computes "
-    "exactly the tree's legs / flops / size (anneal_eq_tree, no guard); the processor's sorted-merge rule "
-    "gives the tree's index counts, sizes and flops on simplified terms, and after simplify_batch the "
+    "exactly the tree's legs / flops / size (anneal_eq_tree, no guard); the processor's leaf legs after "
+    "compute_simplified hold the tree's leaf counts for every term (procLeaf_spec), its sorted-merge rule "
+    "gives the tree's index counts, sizes and flops on every network, and after simplify_batch the "
     "figures of the tree with the all-tensor indices removed, hence tree.flops = (product of their sizes) x "
-    "processor.flops (proc_eq_tree, batch_factor, reported_flops_batch); the hypergraph's contract keeps "
+    "processor.flops (proc_eq_tree_real, batch_factor, reported_flops_batch_real); the hypergraph's contract keeps "
     "exactly the leaf-set survivors for networks without repeated indices, and its sizes / pair costs "
     "equal the tree's when no operand carries a dangling index (hg_* theorems); each therefore equals the "
     "leaf-set characterisation L1 (four_rules_agree). Counter-example theorems pin the two known "
@@ -50,8 +51,11 @@ THEOREMS = [
     "Cotengra.C18.anneal_eq_tree",
     "Cotengra.C18.proc_contracted_get",
     "Cotengra.C18.proc_eq_tree",
+    "Cotengra.C18.procLeaf_spec",
+    "Cotengra.C18.proc_eq_tree_real",
     "Cotengra.C18.batch_factor",
     "Cotengra.C18.reported_flops_batch",
+    "Cotengra.C18.reported_flops_batch_real",
     "Cotengra.C18.reported_flops_partial",
     "Cotengra.C18.reported_flops_counterexample",
     "Cotengra.C18.hg_contract_legs",
